@@ -39,7 +39,7 @@ impl<'l, Data> SourceList<'l, Data> {
         ensures r@.len() == 0, r.wf(),
 //@ enditem
 //@ item src/list.rs / impl SourceList<'l, Data> / fn vacant_entry props=C01,C06,C15 ret=r
-//@ closure 1
+//@ closure <<|slot| slot.source.is_none()>>
 -> (b: bool) ensures b == slot.vacant()
 //@ spec
         requires old(self).wf(), old(self)@.len() < 0x1_0000_0000,
